@@ -78,7 +78,7 @@ def call(pydrex, case, A, f, L):
     phase, fabric = gen.combos(pydrex)[case["combo"]]
     return core.derivatives(
         regime=core.DeformationRegime(case["regime"]), phase=phase, fabric=fabric, n_grains=case["n"],
-        orientations=A.copy(), fractions=f.copy(), strain_rate=(L + L.T) / 2, velocity_gradient=L.copy(),
+        orientations=A, fractions=f, strain_rate=(L + L.T) / 2, velocity_gradient=L,
         deformation_gradient_spin=np.zeros((3, 3)), stress_exponent=case["p"],
         deformation_exponent=case["nexp"], nucleation_efficiency=case["lam"], gbm_mobility=case["M"],
         volume_fraction=case["phi"])
@@ -93,13 +93,18 @@ def check_case(ctx, case, store=None):
     phase, fabric = gen.combos(pydrex)[case["combo"]]
     damping = 0.3 if case["regime"] == 6 else 1.0
     try:
-        dA, df = call(pydrex, case, A, f, L)
+        if case["i"] % 2:
+            dA, df = call(pydrex, case, ctx.buf("A", A), ctx.buf("f", f), ctx.buf("L", L))
+        else:
+            dA, df = call(pydrex, case, A, f, L)
     except Exception as e:
         ctx.case(case, nontrivial=False)
         ctx.check("derivatives_does_not_raise", False, case, key=f"raises/{type(e).__name__}",
                   exc=f"{type(e).__name__}: {str(e)[:200]}")
         return
     dA, df = np.asarray(dA), np.asarray(df)
+    A2, f2, L2 = build(case)
+    ctx.check("inputs_not_mutated", bool(np.array_equal(A, A2) and np.array_equal(f, f2) and np.array_equal(L, L2)), case)
     rA, rf, info = refmodels.drex_rates(int(phase), int(fabric), A, f, L, case["p"], case["nexp"], case["lam"],
                                         case["M"], case["phi"], damping=damping)
     excl = info["tie"] | info["unresolved"]
